@@ -25,7 +25,8 @@ RULE = ("seeded runs over the six supervised families x hyper-parameters x integ
         "vectors with/without unknown (-1) labels at arbitrary positions; the supervised estimator "
         "(optionally an object with an earlier fit on other data) is fitted, the ambient RNG state is "
         "perturbed, then the base learner is fitted on the output of the Constraints helper with the "
-        "same seed; non-trivial = both sides fitted and compared; distinct = distinct (family, "
+        "same seed (pairs and pair labels are formed by the oracle itself); with unknown labels the "
+        "supervised fit is repeated with only the unlabeled points moved; non-trivial = both sides fitted and compared; distinct = distinct (family, "
         "parameters, unknown-label layout, history) signatures")
 REAL_VS_STUB = dict(real=["metric_learn supervised + base estimators", "metric_learn.constraints",
                           "scikit-learn KMeans/LDA/graphical lasso"],
@@ -123,10 +124,17 @@ def derive_and_fit(name, params, X, y, basis_obs=None, nc_obs=None):
     if nc is None:
       nc = nc_obs if nc_obs is not None else 20 * len(np.unique(y)) ** 2
     pos_neg = C.positive_negative_pairs(nc, random_state=seed)
-    pairs, yp = wrap_pairs(X, pos_neg)
+    # the pairs and their labels are formed here, not by the library's
+    # wrap_pairs: similar pairs (a, b) first, then dissimilar pairs (c, d)
+    a_, b_, c_, d_ = [np.asarray(v, dtype=int).ravel() for v in pos_neg]
+    pairs = np.concatenate([np.stack([X[a_], X[b_]], axis=1),
+                            np.stack([X[c_], X[d_]], axis=1)], axis=0) \
+        if len(a_) + len(c_) else np.zeros((0, 2, X.shape[1]))
+    yp = np.concatenate([np.ones(len(a_), dtype=int), -np.ones(len(c_), dtype=int)])
     used = np.concatenate([np.asarray(a).ravel() for a in pos_neg])
     B = getattr(ml, base_name)(**hp)
     B.fit(pairs, yp)
+    B._mlsim_unequal = len(a_) != len(c_)
   elif base_name == "LSML":
     nc = params.get("n_constraints")
     if nc is None:
@@ -276,6 +284,35 @@ def run_plan(plan):
       raise Violation("metric_differs", "cls=%s,%s" % (name, "unknown_labels" if plan["unknown"] else "full_labels"),
                       "||M_supervised - M_base|| relative %.3g (unknown labels: %s, positions %r)"
                       % (e, plan["unknown"], np.where(y < 0)[0].tolist()[:8]))
+    cov["unequal_pos_neg_counts"] += int(getattr(B, "_mlsim_unequal", False))
+    # "the learned metric is the one obtained from the labeled points'
+    # constraints alone": the coordinates of the unlabeled points are irrelevant
+    unl = np.where(y < 0)[0]
+    lda_basis = name == "SCML_Supervised" and isinstance(params.get("basis"), str)
+    if plan["unknown"] and len(unl) and not lda_basis:
+      r2 = np_stream(plan["run_seed"], "c08-unlabeled")
+      X2 = X.copy()
+      X2[unl] = X[unl][r2.permutation(len(unl))] + r2.randn(len(unl), X.shape[1]) * (X.std() + 1e-300) * 3.0
+      world.perturb_ambient(plan["ambient"] * 11 + 5, 2)
+      S2 = cls_of(name)(**copy.deepcopy(params))
+      with world.observed():
+        try:
+          S2.fit(X2, y.copy())
+          s2 = "ok"
+        except Exception as e2:
+          s2, se2 = "exc:" + type(e2).__name__, e2
+      events.append(dict(side="supervised_moved_unlabeled", outcome=s2,
+                         state=digest(vars(S2).get("components_")) if s2 == "ok" else None))
+      if s2 != "ok":
+        raise Violation("unlabeled_points_matter", "cls=%s,raises" % name,
+                        "moving only the unlabeled points makes %s.fit raise %s: %s" % (name, s2, str(se2)[:200]))
+      L2 = S2.components_
+      e2 = rel_err(Ma, L2.T.dot(L2)) if L2.shape == La.shape else float("inf")
+      cov["unlabeled_moved_compared"] += 1
+      if e2 > TOL:
+        raise Violation("unlabeled_points_matter", "cls=%s" % name,
+                        "moving only the unlabeled points (labels < 0, positions %r) changes the "
+                        "learned metric: relative %.3g" % (unl.tolist()[:8], e2))
   except Violation as v:
     violation = dict(oracle=v.oracle, sig=v.sig, detail=v.detail, op=None)
   except Inconclusive as ic:
